@@ -11,7 +11,7 @@ theorem env_irrelevant (e1 e2 : Env) (F : FontMeta) :
 
 theorem write_accepted (env : Env) (F : FontMeta) (h : InDomain F) :
     readErr (codec (derive env F)) = none := by
-  obtain ⟨hw, hg, hv⟩ := h
+  obtain ⟨hw, hv⟩ := h
   have hlen : F.outline.widthList.length = F.outline.numGlyphs := by
     unfold Outline.widthList
     cases hws : F.outline.widths with
@@ -19,14 +19,10 @@ theorem write_accepted (env : Env) (F : FontMeta) (h : InDomain F) :
     | some l => simpa using hw l hws
   generalize ho : F.outline = o at *
   obtain ⟨kind, n, widths, heights, glyphs, eg, cm, hb, gh, gx, sl⟩ := o
-  simp only at hg hlen
+  simp only at hlen
   unfold readErr settleNumGlyphs
   simp only [codec, derive, deriveHmtx, Option.map, Option.getD, List.length_map, ho, hlen]
-  cases kind
-  · have := hg rfl
-    subst this
-    simp [codecOutline]
-  · simp [codecOutline]
+  cases kind <;> simp [codecOutline]
 
 theorem widthList_length (o : Outline) (h : ∀ l, o.widths = some l → l.length = o.numGlyphs) :
     o.widthList.length = o.numGlyphs := by
@@ -50,11 +46,13 @@ theorem mergeOutline_derive (env : Env) (F : FontMeta)
       = List.map (fun w => toInt16 w.trunc)
         (Outline.widthList ⟨kind, n, widths, heights, glyphs, eg, cm, hb, gh, gx, sl⟩) :=
     List.take_of_length_le (by simp [hlen])
-  cases kind <;> by_cases hn : n = 0 <;> simp [codecOutline, htake, hn, hlen]
+  cases kind <;> by_cases hn : n = 0 <;> simp [codecOutline, htake, hn, hlen] <;>
+    (have hp : 0 < n := by omega
+     simp [hp])
 
 theorem read_write (env : Env) (F : FontMeta) (h : InDomain F) :
     merge (codec (derive env F)) = nf F := by
-  obtain ⟨hw, hg, hv⟩ := h
+  obtain ⟨hw, hv⟩ := h
   have ho := mergeOutline_derive env F hw
   have hver := verParse_verString F.version
   have hvr := verRound_nfVersion F.version hv
@@ -67,7 +65,7 @@ theorem read_write (env : Env) (F : FontMeta) (h : InDomain F) :
     perm, upem, fm, asc, des, gap, cap, xh, ia, up, ut,
     ⟨kind, n, widths, heights, glyphs, eg, cm, hb, gh, gx, sl⟩, gdef, gsub, gpos⟩
   simp only at hver hvr hr16 hz
-  clear hw hg hv ho
+  clear hw hv ho
   have hserif : ∀ (serif script : Bool),
       classIsSerif (if serif = true then 768 else if script = true then 2560 else 0) = serif ∧
       classIsScript (if serif = true then 768 else if script = true then 2560 else 0) = (script && !serif) := by
@@ -126,7 +124,8 @@ structure Canonical (F : FontMeta) : Prop where
   /-- widths are int16 integers, one per glyph -/
   widths : ∀ w ∈ F.outline.widthList, ∃ n, w = Dy.ofInt n ∧ isInt16 n
   widthsNone : F.outline.widths = none → F.outline.numGlyphs = 0
-  widthsEmpty : F.outline.kind = .glyf → F.outline.widths ≠ some []
+  /-- a TrueType font read from a file always has a widths slice (zeros without hmtx) -/
+  widthsGlyf : F.outline.kind = .glyf → F.outline.widths ≠ none
   /-- a missing GSUB table is not one the reader would synthesise -/
   gsub : F.gsub = none →
     (!isFixedPitch F.outline.widthList && F.outline.hasBest) = false ∨ F.outline.stdLig = none
@@ -135,9 +134,9 @@ structure Canonical (F : FontMeta) : Prop where
 theorem nfOutline_canonical (o : Outline)
     (hws : ∀ w ∈ o.widthList, ∃ n, w = Dy.ofInt n ∧ isInt16 n)
     (hnone : o.widths = none → o.numGlyphs = 0)
-    (hempty : o.kind = .glyf → o.widths ≠ some []) : nfOutline o = o := by
+    (hglyf : o.kind = .glyf → o.widths ≠ none) : nfOutline o = o := by
   obtain ⟨kind, n, widths, heights, glyphs, eg, cm, hb, gh, gx, sl⟩ := o
-  simp only at hnone hempty
+  simp only at hnone hglyf
   unfold nfOutline
   simp only [List.length_map, List.map_map]
   congr 1
@@ -146,7 +145,9 @@ theorem nfOutline_canonical (o : Outline)
     have := hnone rfl
     subst this
     simp [Outline.widthList]
-    cases kind <;> rfl
+    cases kind
+    · exact absurd rfl (hglyf rfl)
+    · rfl
   | some l =>
     simp only [Outline.widthList] at hws ⊢
     have hmap : List.map (Dy.ofInt ∘ fun w => toInt16 w.trunc) l = l := by
@@ -158,12 +159,8 @@ theorem nfOutline_canonical (o : Outline)
       rw [toInt16_of_range m hm]
     rw [hmap]
     cases l with
-    | nil =>
-      cases kind
-      · exact absurd rfl (hempty rfl)
-      · simp
+    | nil => cases kind <;> simp
     | cons a t => simp
-
 
 theorem heightFallback_canonical (c : Int) (o : Outline) (g : Nat)
     (h : 0 < c ∨ heightFallback 0 o g = c) :
